@@ -187,6 +187,18 @@ theorem tampered_rejected (maskOf : List Nat → List Nat) (hdrLenOf : List Nat 
     exact absurd (this ▸ hp) hq
 
 open Quic.Compose.PacketLayout in
+/-- the AEAD nonce `iv XOR (0³² ‖ pn)` (`Iv::nonce`) is injective in the packet number: a packet
+    opened under a wrongly reconstructed packet number is opened under another nonce -/
+theorem nonce_binds_packet_number (iv : List Nat) (pn1 pn2 : Nat) (h1 : pn1 < 2 ^ 64) (h2 : pn2 < 2 ^ 64)
+    (h : nonce iv pn1 = nonce iv pn2) : pn1 = pn2 :=
+  Quic.Proofs.Lemmas.PacketLayout.nonce_injective iv pn1 pn2 h1 h2 h
+
+open Quic.Compose.PacketLayout in
+/-- RFC 9001 A.5: iv e0459b3474bdd0e44a41c144, pn 654360564 ⇒ nonce e0459b3474bdd0e46d417eb0 -/
+example : nonce [0xe0, 0x45, 0x9b, 0x34, 0x74, 0xbd, 0xd0, 0xe4, 0x4a, 0x41, 0xc1, 0x44] 654360564
+    = [0xe0, 0x45, 0x9b, 0x34, 0x74, 0xbd, 0xd0, 0xe4, 0x6d, 0x41, 0x7e, 0xb0] := by decide
+
+open Quic.Compose.PacketLayout in
 /-- the layout has no gaps: every index below the packet length falls in exactly one region, whose
     kind is AAD, header-protected bits/bytes, ciphertext or tag (short and Initial layouts) -/
 theorem layout_covers_short (dcidLen pnLen payloadLen i : Nat)
@@ -200,6 +212,17 @@ theorem layout_covers_initial (dcidLen scidLen tokLenLen tokenLen lengthLen pnLe
     ∃ r off, regionAt (initialRegions dcidLen scidLen tokLenLen tokenLen lengthLen pnLen payloadLen) i = some (r, off)
       ∧ off < r.len :=
   Quic.Proofs.Lemmas.PacketLayout.regionAt_covers _ i hi
+
+open Quic.Compose.PacketLayout in
+/-- non-vacuity of `every_byte_authenticated` on the RFC 9001 A.5 packet (mask aefefe7d03 for its
+    sample): header 4200bff4 is the AAD, the 17 remaining bytes are ciphertext‖tag; flipping the spin
+    bit gives another AAD -/
+example :
+    let pkt := [0x4c, 0xfe, 0x41, 0x89, 0x65, 0x5e, 0x5c, 0xd5, 0x5c, 0x41, 0xf6, 0x90, 0x80, 0x57, 0x5d, 0x79, 0x99,
+                0xc2, 0x5a, 0x5b, 0xfb]
+    let maskOf : List Nat → List Nat := fun _ => [0xae, 0xfe, 0xfe, 0x7d, 0x03]
+    aeadInput maskOf 1 pkt = some ([0x42, 0x00, 0xbf, 0xf4], pkt.drop 4) ∧
+    aeadInput maskOf 1 (flip pkt 0 0x20) = some ([0x62, 0x00, 0xbf, 0xf4], pkt.drop 4) := by decide
 
 /-! ### non-vacuity: a history with genuine, forged and replayed packets -/
 
